@@ -2,6 +2,19 @@
 
 Reference example of a suite: every clause exercises the real functions from /repo against an
 independent oracle; params are JSON-able and fully determine the case.
+
+Clauses added by the parameter-coverage audit:
+  C17.core.direct      core_tt_to_qtt / core_qtt_to_tt called directly on one core (r1, 2^q, r2): defaults (e = 0, r = 1e12),
+                       e = erel ||G|| in {0, 1e-12, 1e-10, 1e-6, 1e-3, 0.1} (e is ABSOLUTE), caps int / float / binding (1, 2),
+                       core scales 2^+-40, 2^+-300; own little-endian contraction of the returned list
+  C17.qtt_to_tt.direct qtt_to_tt on arbitrary QTT tensors (random ranks), q = 1..6, d = 1..4, exact for integer cores
+  C17.tt_qtt.large_q   mode sizes 512 .. 4096 (d = 1, 2): exact-rank exponential sums under caps K, K+1, 100. and the
+                       defaults of tt_to_qtt; Gaussian cores with a non-binding and a binding cap; every entry compared
+  C17.tt_qtt.scaled    d = 1..3 at overall scales 2^-600 .. 2^600 with e scaled along, rigorous error budget
+                       sum_k (q e + floor ||G_k||) prod_{j != k} ||G_j||; defaults of tt_to_qtt
+  C17.ind.forms        lists / tuples / 1-D list / int8..uint64 arrays / NumPy scalars for n and q
+  (C17.ind.large_modes now also q = 20 .. 62 - values beyond int32 and 2^53 - and d = 63 .. 1000 (3000) modes;
+   C17.ind.raise also n up to 2^18 +- 1)
 """
 import itertools
 import numpy as np
@@ -11,8 +24,10 @@ from rtc import gen
 
 
 BUDGET = (120, 900)     # wall-clock guard in seconds (quick, thorough)
-BOUNDS = ('index maps exhaustive for q*d <= 10 (quick) / 12 (thorough), sampled + boundary indices for q = 7..16; conversions d<=3, q<=3, '
-          'r<=5, 4 (e, cap) settings; sums of K <= 3 exponentials (exact QTT rank K) with caps K..K+2, q <= 5')
+BOUNDS = ('index maps exhaustive for q*d <= 10 (quick) / 12 (thorough), sampled + boundary indices for q = 7..62 and d up to 1000 (3000), '
+          '10 input forms; conversions d<=3, q<=4, r<=5, 6 (e, cap) settings, scales 2^-600..2^600, defaults; direct core calls r1, r2 <= 4 (8), '
+          'q <= 5 (9), 10 (e, cap) settings; arbitrary QTT tensors d*q <= 12 (14); sums of K <= 3 exponentials (exact QTT rank K) with caps '
+          'K..K+2, q <= 5, and q = 9, 10 (7..12) for d = 1, 2')
 
 
 def _bits(i, q):
